@@ -161,6 +161,9 @@ pub fn replay(c: &Value) -> Option<(String, String)> {
     let text: Vec<char> = c["text"].as_str()?.chars().collect();
     let labels: Vec<u8> = serde_json::from_value(c["labels"].clone()).ok()?;
     let tags: Vec<Vec<Option<String>>> = serde_json::from_value(c["tags"].clone()).ok()?;
+    if let Some(l) = c["label"].as_str() {
+        return check_roundtrip(&text, &labels, &tags).map(|(k, w)| (format!("{k} {l}"), w.chars().take(300).collect()));
+    }
     check_roundtrip(&text, &labels, &tags).map(|(k, w)| (sig(&k, &text, &labels, &tags), w))
 }
 
@@ -265,6 +268,54 @@ pub fn run(tier: Tier) -> ! {
             }
         }
     });
+    // (v) threshold sizes: the number of tags of one token, of tokens of a sentence, of characters of one token and
+    // of characters of one tag around 255/256 and 1 KiB (thorough also 4 KiB and u16); short signatures
+    {
+        let sizes: Vec<usize> = tier.pick(vec![254usize, 255, 256, 257, 300, 1025], vec![254, 255, 256, 257, 300, 1025, 4097, 65535, 65536, 65537]);
+        let mut cases: Vec<(String, Vec<char>, Vec<u8>, Vec<Vec<Option<String>>>)> = vec![];
+        let tg = |i: usize| -> Option<String> { if i % 7 == 3 { None } else { Some(format!("t{}", i % 11)) } };
+        for &k in &sizes {
+            // k tags on the first / middle / last of three tokens "ab cd ef"; the others carry 0 or 2 tags
+            for pos in 0..3usize {
+                for other in [0usize, 2] {
+                    let mut tt: Vec<Vec<Option<String>>> = (0..3).map(|_| (0..other).map(|i| Some(format!("o{i}"))).collect()).collect();
+                    tt[pos] = (0..k).map(tg).collect();
+                    *tt[pos].last_mut().unwrap() = Some("last".into());
+                    cases.push((format!("{k}-tags-on-token-{pos}-others-{other}"), "abcdef".chars().collect(), vec![0, 1, 0, 1, 0], tt));
+                }
+            }
+            // k one-character tokens, every third with two tags
+            {
+                let text: Vec<char> = (0..k).map(|i| ['a', 'あ', '/', 'b'][i % 4]).collect();
+                let tt: Vec<Vec<Option<String>>> = (0..k).map(|i| if i % 3 == 0 { vec![tg(i), Some("y".into())] } else { vec![] }).collect();
+                cases.push((format!("{k}-tokens"), text, vec![1; k - 1], tt));
+            }
+            // one token of k characters between two short ones, tagged
+            {
+                let mut text: Vec<char> = vec!['x'];
+                text.extend((0..k).map(|i| ['a', ' ', 'あ', '\\'][i % 4]));
+                text.push('y');
+                let mut labels = vec![0u8; k + 1];
+                labels[0] = 1;
+                labels[k] = 1;
+                cases.push((format!("{k}-character-token"), text, labels, vec![vec![Some("p".into())], vec![Some("q".into()), None, Some("r".into())], vec![]]));
+            }
+            // one tag of k characters
+            {
+                let tag: String = (0..k).map(|i| ['t', '/', 'あ', ' '][i % 4]).collect();
+                cases.push((format!("{k}-character-tag"), vec!['a', 'b'], vec![1], vec![vec![Some(tag.clone())], vec![None, Some(tag)]]));
+            }
+        }
+        chk.set("part_v_threshold_cases", json!(cases.len()));
+        cases.par_iter().for_each(|(label, text, labels, tt)| {
+            chk.eval(1);
+            chk.nontrivial(1);
+            if let Some((k, what)) = check_roundtrip(text, labels, tt) {
+                let what: String = what.chars().take(300).collect();
+                chk.violation(format!("{k} {label}"), what, json!({"kind": "roundtrip", "text": gen::s(text), "labels": labels, "tags": tt, "label": label}));
+            }
+        });
+    }
     // (iv) idempotence on every accepted string
     let sigma4 = ['a', ' ', '/', '\\', 'あ'];
     let l4 = tier.pick(9, 12);
